@@ -135,6 +135,10 @@ def accessor_oracle(sess, op):
     errs = record_rows_ok(cfg, flat["u"], flat["x"], flat["logl"], flat.get("blobs"), want_blobs)
     for field, row, det in errs[:1]:
         p.violate(f"session:flat-history:{field}", f"after {op}: particle {row} of the flattened history is not a coherent record: {det}")
+    from .refmodels import mis
+    batches, betas, logzs = mis.history_of(st)
+    lw_ref, lz_ref = mis.logw_float(batches, betas, logzs, 1.0)
+    w_ref = mis.weights_float(lw_ref)
     with OwnedRandom(3):
         out = p.sampler.posterior(return_blobs=want_blobs, trim_importance_weights=False)
     x, w, ll = out[0], out[1], out[2]
@@ -146,3 +150,65 @@ def accessor_oracle(sess, op):
         if not (f(x[i]) + cfg["shift"] == ll[i]) or (want_blobs and not (targets.blob_of(x[i]) == float(np.ravel(out[3][i])[0]))):
             p.violate("session:posterior:record", f"after {op}: posterior() row {i} is not a whole record")
             break
+    if np.max(np.abs(np.asarray(w) - w_ref)) > 1e-9:
+        p.violate("session:posterior:weights", f"after {op}: posterior() weights are not the mixture weights of the stored history (max diff {np.max(np.abs(np.asarray(w) - w_ref)):.3g}): stale or foreign weights handed out")
+    lwz = st.compute_logw_and_logz(1.0)
+    if abs(float(lwz[1]) - lz_ref) > 1e-9 * (1 + abs(lz_ref)):
+        p.violate("session:evidence", f"after {op}: compute_logw_and_logz(1.0) evidence {float(lwz[1])!r} is not the evidence of the stored history ({lz_ref!r})")
+    # trimmed posterior: the trimming contract relative to the weights of the CURRENT history
+    # same options first and last: a single-entry memo keyed on the options survives from one operation to the next
+    for (et, bt) in ((0.99, 1000), (0.9, 10), (0.99, 1000)):
+        with OwnedRandom(3):
+            xt, wt, lt = p.sampler.posterior(trim_importance_weights=True, ess_trim=et, bins_trim=bt)[:3]
+        pos = {}
+        for i, xi in enumerate(np.concatenate(st._history["x"])):
+            pos.setdefault(np.asarray(xi).tobytes(), []).append(i)
+        rows = [pos.get(np.asarray(xi).tobytes(), [None])[0] for xi in xt]
+        if any(r is None for r in rows):
+            p.violate("session:trim:foreign-row", f"after {op}: posterior(trim) returned a row that is not a stored particle")
+            break
+        wr = w_ref[rows]
+        if np.max(np.abs(np.asarray(wt) - wr / wr.sum())) > 1e-9:
+            p.violate("session:trim:weights", f"after {op}: posterior(ess_trim={et}, bins_trim={bt}) weights are not the renormalised mixture weights of the returned rows (stale trimming result?)")
+            break
+        e_all, e_kept = 1.0 / np.sum(w_ref ** 2), 1.0 / np.sum((wr / wr.sum()) ** 2)
+        if e_kept / e_all < et - 1e-9:
+            p.violate("session:trim:ess-fraction", f"after {op}: posterior(ess_trim={et}) kept ESS fraction {e_kept / e_all!r}")
+            break
+
+
+def run_case(case, make_monitors, oracle=accessor_oracle, key_pred=None, prefix=""):
+    """Generic case executor used by several checks: sequences = case['only'] | patterns shard | all sequences of a depth."""
+    from .core import Res
+
+    res = Res()
+    cfg = dict(case["cfg"])
+    if case.get("only"):
+        seqs = [tuple(case["only"])]
+    elif case.get("patterns"):
+        seqs = patterns()[case["patterns"][0]::case["patterns"][1]]
+    else:
+        seqs = list(sequences(case["depth"], first=case.get("first")))
+    for seq in seqs:
+        s = Session(cfg, case["base"], make_monitors())
+        s.p.abstract = set()
+        s.run(seq, after_op=oracle)
+        res.evals += 1
+        res.states += len(seq)
+        res.trans += s.p.events
+        res.traces += 1
+        cc = dict(case, only=list(seq))
+        if s.err is not None:
+            res.bump("aborted_sessions")
+            res.bump("aborted:" + type(s.err).__name__)
+            if case.get("raise_is_violation"):
+                res.violate(f"{prefix}session:raises:{type(s.err).__name__}", f"operations {' '.join(seq)} on one sampler object raised {s.err!r} (cfg={cfg})", cc)
+        seen = set()
+        for key, msg, det in s.p.viol:
+            if key in seen or (key_pred is not None and not key_pred(key)):
+                continue
+            seen.add(key)
+            res.violate(prefix + key, msg + f" [one sampler object, operations after 3 iterations: {' '.join(seq)}; cfg={cfg}]", cc)
+        res.outcome(("session", tuple(sorted((k, repr(v)) for k, v in cfg.items())), seq), nontrivial=any(o[0] == "L" for o in seq))
+    res.sample({"cfg": cfg, "sequences": len(seqs), "example": list(seqs[len(seqs) // 2]) if seqs else None}, cap=1)
+    return res
